@@ -56,6 +56,10 @@ def session_messages(remote_as=65002, local_as=65001, holds=(90,), full=True):
         # OPEN errors beyond version / AS / hold time
         m['OPEN_BADID'] = wire.open_msg(remote_as, 90, 0, caps)
         m['OPEN_BADCAP'] = wire.open_msg(remote_as, 90, PEER_ID, [wire.cap(wire.CAP_MP, b''), wire.cap(wire.CAP_RR)])
+        # NOTIFICATIONs outside the RFC 4271 code table (7 = RFC 7313 ROUTE-REFRESH Message Error; 9/200 unassigned):
+        # whatever the codes, event 25 NotifMsg ends the session
+        m['NOTIF_CODE7'] = wire.notification(7, 1)
+        m['NOTIF_UNASSIGNED'] = wire.notification(9, 200, b'\x01')
         m['OPEN_AUTHPARAM'] = wire.frame(wire.OPEN, wire.open_body(remote_as if remote_as < 65536 else 23456, 90, PEER_ID,
                                                                   b'\x01\x02\x00\x00'))
     return m
@@ -66,7 +70,7 @@ def classify(name):
     if name.startswith('OPEN_OK_H'):
         return ('OPEN', int(name[len('OPEN_OK_H'):]))
     table = {'OPEN_OK': ('OPEN', 90), 'OPEN_NOOPT': ('OPEN', 90), 'KA': ('KA',), 'UPD': ('UPD',),
-             'UPD_MALFORMED': ('UPD_MALFORMED',), 'NOTIF_CEASE': ('NOTIF',), 'NOTIF_VER': ('NOTIF_VER',),
+             'UPD_MALFORMED': ('UPD_MALFORMED',), 'NOTIF_CEASE': ('NOTIF',), 'NOTIF_VER': ('NOTIF_VER',), 'NOTIF_CODE7': ('NOTIF',), 'NOTIF_UNASSIGNED': ('NOTIF',),
              'RR': ('RR',), 'OPEN_BADVER': ('OPEN_VER',), 'OPEN_BADAS': ('OPEN_AS',),
              'OPEN_H1': ('OPEN_HOLD',), 'OPEN_H2': ('OPEN_HOLD',), 'BAD_MARKER': ('HDR', 1),
              'BAD_LEN18': ('HDR', 2), 'BAD_LEN4097': ('HDR', 2), 'BAD_LEN0': ('HDR', 2),
